@@ -474,6 +474,21 @@ func (x *Exec) Settle() {
 	x.NoBranch = old
 }
 
+// SettleUntil settles and fires every timer due up to virtual time d (deterministically).
+func (x *Exec) SettleUntil(d time.Duration) {
+	for {
+		x.Settle()
+		when, ok := x.NextTimer()
+		if !ok || when > d || x.aborting {
+			return
+		}
+		old := x.NoBranch
+		x.NoBranch = true
+		x.FireNextTimer()
+		x.NoBranch = old
+	}
+}
+
 // Choices returns the choice list of this execution (a replayable schedule).
 func (x *Exec) Choices() []int {
 	out := make([]int, len(x.Points))
